@@ -1729,4 +1729,82 @@ def preSwapped : List Agent :=
 
 theorem swapped_error : (Swapped.run cfgNoFault (sched preSwapped 1) 8).m = .error := by decide
 
+/-! ### bounded time under the round-robin scheduler -/
+
+theorem pot_mono_step (cfg : Cfg α β) (σ : Nat → Agent) (k : Nat) :
+    pot cfg (run cfg σ (k+1)) ≤ pot cfg (run cfg σ k) := by
+  rcases step_eq_or_dec cfg (run cfg σ k) (σ k) with he | hd
+  · simp [run, he]
+  · have : pot cfg (run cfg σ (k+1)) < pot cfg (run cfg σ k) := by simpa [run] using hd
+    omega
+
+theorem pot_mono (cfg : Cfg α β) (σ : Nat → Agent) (k d : Nat) :
+    pot cfg (run cfg σ (k+d)) ≤ pot cfg (run cfg σ k) := by
+  induction d with
+  | zero => simp
+  | succ d ih => have := pot_mono_step cfg σ (k+d); rw [← Nat.add_assoc]; omega
+
+theorem same_or_lower (cfg : Cfg α β) (σ : Nat → Agent) (k i : Nat) :
+    run cfg σ (k+i) = run cfg σ k ∨ pot cfg (run cfg σ (k+i)) < pot cfg (run cfg σ k) := by
+  induction i with
+  | zero => exact Or.inl rfl
+  | succ i ih =>
+    rw [← Nat.add_assoc]
+    rcases ih with he | hl
+    · rcases step_eq_or_dec cfg (run cfg σ (k+i)) (σ (k+i)) with he' | hd
+      · left; simp only [run]; rw [he'] ; exact he
+      · right; have : pot cfg (run cfg σ (k+i+1)) < pot cfg (run cfg σ (k+i)) := by simpa [run] using hd
+        rw [he] at this; exact this
+    · right; have := pot_mono_step cfg σ (k+i); omega
+
+theorem sched_rr (n r i : Nat) (hi : i < n + 1) : sched [] n (r * (n+1) + i) = agentOf i := by
+  simp [sched, Nat.mul_add_mod_of_lt hi]
+
+theorem valid_agentOf (n : Nat) (a : Agent) (h : ValidAgent n a) : ∃ i, i < n + 1 ∧ agentOf i = a := by
+  cases a with
+  | master => exact ⟨0, by omega, rfl⟩
+  | child j => exact ⟨j+1, by simp [ValidAgent] at h; omega, by simp [agentOf]⟩
+
+/-- one round of round-robin from a state in which `parallelize` has not ended lowers the ranking function -/
+theorem round_lowers (cfg : Cfg α β) (hnp : NoPartial cfg) (r : Nat)
+    (hnt : (run cfg (sched [] cfg.nchild) (r * (cfg.nchild+1))).m.terminal = false) :
+    pot cfg (run cfg (sched [] cfg.nchild) ((r+1) * (cfg.nchild+1))) <
+      pot cfg (run cfg (sched [] cfg.nchild) (r * (cfg.nchild+1))) := by
+  set σ := sched [] cfg.nchild with hσ
+  set k := r * (cfg.nchild+1) with hk
+  obtain ⟨a, hv, hp⟩ := exists_productive cfg (run cfg σ k) hnt (noPoison_run cfg hnp σ k).2
+  obtain ⟨i, hi, ha⟩ := valid_agentOf cfg.nchild a hv
+  have hstep : pot cfg (run cfg σ (k+i+1)) < pot cfg (run cfg σ k) := by
+    rcases same_or_lower cfg σ k i with he | hl
+    · have hs : σ (k+i) = a := by rw [hσ, hk, sched_rr _ _ _ hi, ha]
+      simp only [run]; rw [he, hs]; exact hp
+    · have := pot_mono_step cfg σ (k+i); omega
+  have : (r+1) * (cfg.nchild+1) = (k+i+1) + (cfg.nchild - i) := by rw [hk]; ring_nf; omega
+  rw [this]
+  have := pot_mono cfg σ (k+i+1) (cfg.nchild - i)
+  omega
+
+/-- **bounded time under round-robin**: `parallelize` has ended after at most `pot init + 1` rounds -/
+theorem round_robin_bound (cfg : Cfg α β) (hnp : NoPartial cfg) :
+    ∃ k, k ≤ (pot cfg (init : State (MPhase β) β) + 1) * (cfg.nchild + 1) ∧
+      (run cfg (sched [] cfg.nchild) k).m.terminal = true := by
+  generalize hσ : sched [] cfg.nchild = σ
+  have key : ∀ r, (∃ r', r' ≤ r ∧ (run cfg σ (r' * (cfg.nchild+1))).m.terminal = true) ∨
+      pot cfg (run cfg σ (r * (cfg.nchild+1))) + r ≤ pot cfg (init : State (MPhase β) β) := by
+    intro r
+    induction r with
+    | zero => right; simp [run]
+    | succ r ih =>
+      rcases ih with ⟨r', hr', ht⟩ | hle
+      · exact Or.inl ⟨r', by omega, ht⟩
+      · by_cases ht : (run cfg σ (r * (cfg.nchild+1))).m.terminal = true
+        · exact Or.inl ⟨r, by omega, ht⟩
+        · right
+          have := round_lowers cfg hnp r (by rw [hσ]; simpa using ht)
+          rw [hσ] at this
+          omega
+  rcases key (pot cfg (init : State (MPhase β) β) + 1) with ⟨r', hr', ht⟩ | hle
+  · exact ⟨r' * (cfg.nchild+1), Nat.mul_le_mul_right _ hr', ht⟩
+  · omega
+
 end Par
